@@ -89,7 +89,7 @@ func startWorker() (*worker, error) {
 // watchdogTimeout: real time after which a scenario counts as hung (it is then re-run alone
 // with twice the time; only a reproduced hang is reported).
 func watchdogTimeout() time.Duration {
-	return time.Duration(envInt("VERIF_WATCHDOG_S", 30)) * time.Second
+	return time.Duration(envInt("VERIF_WATCHDOG_S", 45)) * time.Second
 }
 
 func gomaxprocsForWorkers() string {
